@@ -360,36 +360,116 @@ class UIDevice(SimDevice):
         return 0x6A01, b""
 
 
+DEFAULT_ETH_PATH = "m/44'/60'/0'/0/0"        # the documented default of signapp eth
+
+
+def eth_path_bytes(spec):
+    """derivation path as the Ethereum app receives it: element count + 4-byte big-endian elements
+    (own encoder)"""
+    parts = spec[2:].split("/") if spec.startswith("m/") else []
+    out = bytes([len(parts)])
+    for q in parts:
+        hard = q.endswith("'")
+        out += ((int(q[:-1] if hard else q) + (0x80000000 if hard else 0)) & 0xFFFFFFFF).to_bytes(4, "big")
+    return out
+
+
+def eth_key(seed, path_spec):
+    """the simulated Ethereum app's key for a path: one key per path, derived from the path bytes"""
+    raw = hashlib.sha256(b"eth-app" + bytes(seed) + eth_path_bytes(path_spec or DEFAULT_ETH_PATH)).digest()
+    while not 0 < int.from_bytes(raw, "big") < ORDER:
+        raw = hashlib.sha256(raw).digest()
+    return Key(raw=raw)
+
+
 class EthAppDevice:
     """Ledger Ethereum app as admin/dongle_eth.py talks to it: GET_PUBLIC_ADDRESS (0x02) and
-    SIGN_PERSONAL_MSG (0x08), which signs Keccak256(Eip191(message)) computed with the oracle hash."""
+    SIGN_PERSONAL_MSG (0x08), which signs Keccak256(Eip191(message)) computed with the oracle hash.
+    One key per derivation path (derived from the path bytes of the request); the path of every
+    request is recorded."""
 
-    def __init__(self, key, high_s=False):
-        self.key = key
+    def __init__(self, seed, high_s=False):
+        self.seed = bytes(seed)
         self.high_s = high_s
         self.signed = []
+        self.paths = []
 
     def on_connect(self):
         pass
 
+    def _key(self, pathbytes):
+        raw = hashlib.sha256(b"eth-app" + self.seed + pathbytes).digest()
+        while not 0 < int.from_bytes(raw, "big") < ORDER:
+            raw = hashlib.sha256(raw).digest()
+        return Key(raw=raw)
+
     def handle(self, apdu):
-        if len(apdu) < 5 or apdu[0] != 0xE0:
+        if len(apdu) < 6 or apdu[0] != 0xE0:
             return 0x6E00, b""
         cmd, body = apdu[1], bytes(apdu[5:])
-        npath = body[0] if body else 0
+        npath = body[0]
+        pathbytes = body[:1 + 4 * npath]
         rest = body[1 + 4 * npath:]
+        self.paths.append(pathbytes)
+        key = self._key(pathbytes)
         if cmd == 0x02:
-            return 0x9000, bytes([65]) + self.key.pub + bytes([40]) + b"0" * 40
+            return 0x9000, bytes([65]) + key.pub + bytes([40]) + b"0" * 40
         if cmd == 0x08:
             ln = int.from_bytes(rest[:4], "big")
             m = rest[4:4 + ln]
             self.signed.append(m)
-            der = self.key.sign(keccak256(eip191(m)), high_s=self.high_s)
+            der = key.sign(keccak256(eip191(m)), high_s=self.high_s)
             rl = der[3]
             r = int.from_bytes(der[4:4 + rl], "big")
             s = int.from_bytes(der[6 + rl:], "big")
             return 0x9000, bytes([27]) + r.to_bytes(32, "big") + s.to_bytes(32, "big")
         return 0x6D00, b""
+
+
+def short_value_seed(rng, digest, path_spec, high_s=False, tries=4000):
+    """an Ethereum-app seed whose key for `path_spec` signs `digest` with r or s below 2^247"""
+    for _ in range(tries):
+        seed = bytes(rng.getrandbits(8) for _ in range(16))
+        der = eth_key(seed, path_spec).sign(digest, high_s=high_s)
+        rl = der[3]
+        if int.from_bytes(der[4:4 + rl], "big") < (1 << 247) or int.from_bytes(der[6 + rl:], "big") < (1 << 247):
+            return seed
+    return None
+
+
+# command-line shapes: every option in its short or long spelling, operation first / last
+SIGNAPP_OPTS = {"output": ("-o", "--output"), "app": ("-a", "--app"), "iteration": ("-i", "--iteration"),
+                "key": ("-k", "--key"), "path": ("-p", "--path"), "signature": ("-g", "--signature"),
+                "pubkey": ("-b", "--pubkey")}
+ADM_OPTS = {"pin": ("-p", "--pin"), "signauth": ("-z", "--signauth")}
+STYLES = ("short_first", "long_first", "short_last", "long_last", "mixed_mid", "longeq_first")
+
+
+def build_argv(op, opts, shape, table=SIGNAPP_OPTS):
+    """opts: [(name, value | None for a flag)]; shape: {style, seed}. Own construction of the command
+    line: option names short / long / mixed / --name=value, options in a seeded order, the operation
+    before, after or between them."""
+    import random
+    shape = shape or {"style": "short_first", "seed": 0}
+    style = shape["style"]
+    r = random.Random(shape.get("seed", 0))
+    opts = list(opts)
+    if style != "short_first":
+        r.shuffle(opts)
+    groups = []
+    for name, value in opts:
+        form = {"short": 0, "long": 1, "longeq": 1, "mixed": r.randrange(2)}[style.split("_")[0]]
+        flag = table[name][form]
+        if value is None:
+            groups.append([flag])
+        elif style.startswith("longeq"):
+            groups.append(["%s=%s" % (flag, value)])
+        else:
+            groups.append([flag, str(value)])
+    where = style.split("_")[1]
+    pos = 0 if where == "first" else len(groups) if where == "last" else r.randrange(len(groups) + 1)
+    groups.insert(pos, [op])
+    return [x for g in groups for x in g]
 
 
 # ----------------------------------------------------------------------------------------------
@@ -572,7 +652,7 @@ def _file_text_for_verification(d):
         return b""
 
 
-def sign_event(via, path, before_count, code, pub=None, given=None, args=None):
+def sign_event(via, path, before_count, code, pub=None, given=None, args=None, paths=(), want_path=b""):
     """what one signapp invocation did to the file at -o. The added signature is verified (python-ecdsa,
     under the signing key) for the digest of the version the file names AFTER the step."""
     d = read_file(path)
@@ -596,7 +676,8 @@ def sign_event(via, path, before_count, code, pub=None, given=None, args=None):
                 "iter": {"form": "str", "val": 0, "s": codes(args["iter"])}}
     return {"k": "sign", "via": via, "args": arec, "given": codes(given) if given is not None else [],
             "ok": "t" if code == 0 else "f", "sig": codes(added) if added is not None else [],
-            "exists": "t" if exists else "f", "file": rec, "verifies": ver, "ver_of": codes(text)}
+            "exists": "t" if exists else "f", "file": rec, "verifies": ver, "ver_of": codes(text),
+            "paths": [codes(x) for x in paths], "want_path": codes(want_path)}
 
 
 def _count(path):
@@ -604,37 +685,67 @@ def _count(path):
     return len(d["sigs"]) if d else 0
 
 
-def _argv_args(args):
-    return ["-a", args["app_path"], "-i", args["iter"]] if args else []
+def _arg_opts(args):
+    return [("app", args["app_path"]), ("iteration", args["iter"])] if args else []
 
 
-def tool_key(path, key, args=None):
+def tool_key(path, key, args=None, shape=None):
     before = _count(path)
-    code, _ = run_signapp(["key", "-o", path, "-k", key.raw.hex()] + _argv_args(args))
+    code, _ = run_signapp(build_argv("key", [("output", path), ("key", key.raw.hex())] + _arg_opts(args), shape))
     return sign_event("key", path, before, code, pub=key.pub, args=args)
 
 
-def tool_eth(path, key, high_s=False, eth_path=None, args=None):
-    before = _count(path)
-    world = World(EthAppDevice(key, high_s=high_s), "hid")
+def _eth_world(seed, high_s):
+    dev = EthAppDevice(seed, high_s=high_s)
+    world = World(dev, "hid")
     install(world)
     import admin.dongle_eth as de
     de.getDongle = world.get_dongle_hid
-    argv = ["eth", "-o", path] + (["-p", eth_path] if eth_path else []) + _argv_args(args)
-    code, _ = run_signapp(argv)
-    e = sign_event("eth", path, before, code, pub=key.pub, args=args)
-    return e, world
+    return dev
 
 
-def tool_manual(path, sig_text, args=None):
+def tool_eth(path, seed, sel_path=None, high_s=False, args=None, shape=None):
+    """signapp eth against an Ethereum app with one key per path; the operator selected `sel_path`
+    (None: left out). The signature is verified under the app's key for THAT path."""
     before = _count(path)
-    code, _ = run_signapp(["manual", "-o", path, "-g", sig_text] + _argv_args(args))
+    dev = _eth_world(seed, high_s)
+    opts = [("output", path)] + ([("path", sel_path)] if sel_path is not None else []) + _arg_opts(args)
+    code, _ = run_signapp(build_argv("eth", opts, shape))
+    return sign_event("eth", path, before, code, pub=eth_key(seed, sel_path).pub, args=args,
+                      paths=dev.paths, want_path=eth_path_bytes(sel_path or DEFAULT_ETH_PATH))
+
+
+def tool_eth_pub(pub_path, seed, sel_path=None, shape=None):
+    """signapp eth -b -o <file> [-p path]: the public key printed and saved"""
+    if os.path.exists(pub_path):
+        os.unlink(pub_path)
+    dev = _eth_world(seed, False)
+    opts = [("output", pub_path), ("pubkey", None)] + ([("path", sel_path)] if sel_path is not None else [])
+    code, out = run_signapp(build_argv("eth", opts, shape))
+    saved = ""
+    if os.path.exists(pub_path):
+        with open(pub_path) as f:
+            saved = f.read().strip()
+        os.unlink(pub_path)
+    printed = ""
+    for line in out.split("\n"):
+        if line.startswith("Public key: "):
+            printed = line[len("Public key: "):].strip()
+    return {"k": "pubkey", "ok": "t" if code == 0 else "f", "saved": codes(saved), "printed": codes(printed),
+            "want": codes(eth_key(seed, sel_path).pub.hex()), "paths": [codes(x) for x in dev.paths],
+            "want_path": codes(eth_path_bytes(sel_path or DEFAULT_ETH_PATH))}
+
+
+def tool_manual(path, sig_text, args=None, shape=None):
+    before = _count(path)
+    code, _ = run_signapp(build_argv("manual", [("output", path), ("signature", sig_text)] + _arg_opts(args),
+                                     shape))
     return sign_event("manual", path, before, code, given=sig_text, args=args)
 
 
-def tool_message(path, args=None):
+def tool_message(path, args=None, shape=None):
     before = _count(path)
-    code, _ = run_signapp(["message", "-o", path] + _argv_args(args))
+    code, _ = run_signapp(build_argv("message", [("output", path)] + _arg_opts(args), shape))
     return sign_event("message", path, before, code, args=args)
 
 
@@ -676,9 +787,32 @@ def apdu_events(world):
     return evs
 
 
-def authorize(path, device, via):
-    """via 'admin': admin.authorize_signer.do_authorize_signer(options) (unlocks first);
-    via 'dongle': HSM2Dongle.authorize_signer(SignerAuthorization.from_jsonfile(path)).
+def run_adm_ledger(argv):
+    """adm_ledger.main() in-process: (exit code, stdout)"""
+    env.setup()
+    import adm_ledger
+    out = io.StringIO()
+    old = sys.argv
+    sys.argv = ["adm_ledger.py"] + [str(a) for a in argv]
+    code = None
+    try:
+        with contextlib.redirect_stdout(out), contextlib.redirect_stderr(io.StringIO()):
+            try:
+                adm_ledger.main()
+            except SystemExit as e:
+                code = e.code if isinstance(e.code, int) else (0 if e.code is None else 1)
+    finally:
+        sys.argv = old
+    return code, out.getvalue()
+
+
+ADM_EXIT = {0: None, 1: "AdminError", 2: "HSM2DongleError", 3: "KeyboardInterrupt", 4: "Exception"}
+
+
+def authorize(path, device, via, shape=None):
+    """via 'admin': `adm_ledger authorize_signer -p PIN -z file` (adm_ledger.main in-process, options in
+    the spelling / order of `shape`; unlocks first); via 'dongle':
+    HSM2Dongle.authorize_signer(SignerAuthorization.from_jsonfile(path)).
     Returns (events, exception class name | None)."""
     SA, _ = _mods()
     from comm.platform import Platform
@@ -687,18 +821,16 @@ def authorize(path, device, via):
     world = World(device, "hid")
     install(world)
     exc = None
-    out = io.StringIO()
-    with contextlib.redirect_stdout(out):
-        if via == "admin":
-            from admin.authorize_signer import do_authorize_signer
-            opts = types.SimpleNamespace(signer_authorization_file_path=path, pin=PIN, any_pin=False,
-                                         verbose=False, no_exec=False)
-            try:
-                do_authorize_signer(opts)
-                ok = True
-            except Exception as e:
-                ok, exc = False, type(e).__name__
-        else:
+    if via == "admin":
+        code, out = run_adm_ledger(build_argv("authorize_signer", [("pin", PIN), ("signauth", path)], shape,
+                                              table=ADM_OPTS))
+        ok = code == 0 and "Signer authorized" in out
+        exc = ADM_EXIT.get(code, "Exit%s" % code) if not ok else None
+        if not ok and exc is None:
+            exc = "NoSuccessMessage"
+    else:
+        out = io.StringIO()
+        with contextlib.redirect_stdout(out):
             from ledger.hsm2dongle import HSM2Dongle
             try:
                 auth = SA.from_jsonfile(path)
@@ -710,8 +842,6 @@ def authorize(path, device, via):
                     d.disconnect()
             except Exception as e:
                 ok, exc = False, type(e).__name__
-    if via == "admin" and ok and "Signer authorized" not in out.getvalue():
-        ok = False
     evs = apdu_events(world)
     evs.append({"k": "outcome", "authorized": "t" if ok else "f", "exc": exc or "none", "fresh": "na"})
     return evs, exc
@@ -836,7 +966,7 @@ def admin_twice(path, devices, scratch):
         if not d.get("same") or dev is None:
             dev = make_device(d)
         evs.append({"k": "begin"})
-        aevs, _ = authorize(path, dev, "admin")
+        aevs, _ = authorize(path, dev, "admin", shape=d.get("shape"))
         evs.extend(aevs)
     evs.append(_content(read_file(path) or {}, "disk"))
     return evs
@@ -848,8 +978,10 @@ def execute(recipe, scratch, tag):
       src: api | file | signapp | absent (no authorization file to start with)
       hash: {kind, s, py?}   iter: {form, val, s}   sigs: [text]      app: hex of the app image (src signapp)
       apps: {name: hex image}      (images the signapp steps may name with -a)
-      tools: [{op: key, key: hex} | {op: eth, key: hex, high_s, path} | {op: manual, sig: text}
-              | {op: message}], each optionally with args: {app: name, iter: text}  (-a / -i)
+      tools: [{op: key, key: hex} | {op: eth, seed: hex, high_s, path: text | null} | {op: eth_pub, seed, path}
+              | {op: manual, sig: text} | {op: message}], each optionally with args: {app: name, iter: text}
+              (-a / -i) and shape: {style, seed} (spelling / order of the command line)
+      admin_shape: {style, seed} for `adm_ledger authorize_signer`
       roundtrip: bool
       history: [operations on one loaded object, see run_history]   admin_twice: [device, device]
       device: {authorizers: [hex pub], threshold, cur}   via: admin | dongle
@@ -890,15 +1022,19 @@ def execute(recipe, scratch, tag):
             args = None
             if t.get("args"):
                 args = dict(apps[t["args"]["app"]], iter=t["args"]["iter"])
+            shape = t.get("shape")
             if t["op"] == "key":
-                evs.append(tool_key(path, Key(raw=bytes.fromhex(t["key"])), args=args))
+                evs.append(tool_key(path, Key(raw=bytes.fromhex(t["key"])), args=args, shape=shape))
             elif t["op"] == "eth":
-                evs.append(tool_eth(path, Key(raw=bytes.fromhex(t["key"])), high_s=t.get("high_s", False),
-                                    eth_path=t.get("path"), args=args)[0])
+                evs.append(tool_eth(path, bytes.fromhex(t["seed"]), t.get("path"), high_s=t.get("high_s", False),
+                                    args=args, shape=shape))
+            elif t["op"] == "eth_pub":
+                evs.append(tool_eth_pub(os.path.join(scratch, "pub_%s.txt" % tag), bytes.fromhex(t["seed"]),
+                                        t.get("path"), shape=shape))
             elif t["op"] == "message":
-                evs.append(tool_message(path, args=args))
+                evs.append(tool_message(path, args=args, shape=shape))
             else:
-                evs.append(tool_manual(path, t["sig"], args=args))
+                evs.append(tool_manual(path, t["sig"], args=args, shape=shape))
         if recipe.get("roundtrip") and os.path.exists(path):
             evs.append(roundtrip_event(path, scratch, tag))
     if recipe.get("history") is not None and os.path.exists(path):
@@ -908,7 +1044,7 @@ def execute(recipe, scratch, tag):
     d = recipe.get("device")
     if d is not None:
         dev = UIDevice([bytes.fromhex(a) for a in d["authorizers"]], d["threshold"], cur_iter=d["cur"])
-        aevs, exc = authorize(path, dev, recipe.get("via", "admin"))
+        aevs, exc = authorize(path, dev, recipe.get("via", "admin"), shape=recipe.get("admin_shape"))
         evs.extend(aevs)
         info["exc"] = exc
         info["success_at"] = dev.success_at
